@@ -74,6 +74,17 @@ claimed.update({
    note="Whether a compute that panics counts as a lookup is not asserted.",
    technique=SEQ, ref="5/C20"),
 })
+claimed.update({
+ "C18": dict(
+   text="All increment/aging/resize sequences up to length 5 (quick) / 6 (thorough) over 3 keys whose raw hashes range over an adversarial set found by search (same block and same four counters; same block; counters adjacent inside one 64-bit word; high-bit difference; 0; all ones), for capacities {1,2,3,7,8,9,16,17,100} incl. a mid-sequence ensureCapacity, plus long runs across the natural aging point: estimate >= recordings of the period (capped 15), <= 15, halved by aging, 0 before initialisation; admit() for every (candidate, victim) estimate pair x 9 random answers.",
+   note="Drives the private sketch/policy through verification-only exports; hashes go through the hashing seam.",
+   technique="explicit-state exploration of the implementation: exhaustive enumeration of recording sequences and estimate pairs against exact per-period counts",
+   ref="5/C18"),
+ "C19": dict(
+   text="At every distinct state reached by all sequences up to depth 3/4 of {Set(weight), Get, Invalidate, SetExpiresAfter, SetRefreshableAfter, Advance} in every feature combination: SaveCacheTo, then LoadCacheFrom into a fresh cache at every interesting clock offset (0, 1, each deadline -1/0/+1, past each refresh deadline, past everything) and target maximum {same, 1, 2, 10}: saved = live entries with their deadlines; loaded entries keep key, value, expiration (and future refresh time, due ones stay due); nothing absent/expired is loaded; everything is loaded when it fits, else a subset within the target's bound.",
+   note="gob stream in memory; same calculators in source and target.",
+   technique=SEQ, ref="5/C19"),
+})
 props = [json.loads(l) for l in open("/verif/properties.jsonl")]
 checks, na = [], []
 for p in props:
